@@ -1,7 +1,7 @@
 (* C13 — property theorems.  Only statements, each closed by [exact], each followed by
    Print Assumptions. *)
 From Coq Require Import ZArith List Bool.
-From Centro Require Import Base.VecC13 Proofs.VecC13Proofs Model.MeasureC13 Proofs.MeasureC13Proofs.
+From Centro Require Import Base.VecC13 Proofs.VecC13Proofs Model.MeasureC13 Proofs.MeasureC13Proofs Model.EllipseCoordsC13 Proofs.EllipseC13Proofs.
 Import ListNotations.
 Open Scope Z_scope.
 
@@ -163,3 +163,27 @@ Theorem C13_euler_request : forall im idxs,
   euler4 im idxs = flat_map (fun l => euler4 im [l]) idxs.
 Proof. exact euler_request. Qed.
 Print Assumptions C13_euler_request.
+
+(* ---- ellipse moments (m00, centre, a, b, c over Q) ----
+   ell_c is the per-object, coordinate-level model; the as-written model
+   Model.MeasureC13.ellipse_moments (bincount over all labels, centring through ic[labels], gather)
+   is compared with it by exact equality on every generated object and with the implementation.
+   Not proved: ellipse_moments im idxs = EllRows (ells im idxs) inside the domain (missing lemma:
+   nth of the zipped bincount rows, "ellipse_rows_nth"). *)
+
+(* (c) translation: the central moments a, b, c and m00 are unchanged, the centre moves along *)
+Theorem C13_ellipse_translate : forall dy dx cs,
+  ell_c (map (shiftc dy dx) cs) = option_map (move dy dx) (ell_c cs).
+Proof. exact ell_c_translate. Qed.
+Print Assumptions C13_ellipse_translate.
+
+Theorem C13_ellipse_independent : forall im im' idxs idxs' k k' l,
+  mask l im = mask l im' -> nth_error idxs k = Some l -> nth_error idxs' k' = Some l ->
+  nth_error (ells im idxs) k = nth_error (ells im' idxs') k'.
+Proof. exact ells_independent. Qed.
+Print Assumptions C13_ellipse_independent.
+
+Theorem C13_ellipse_relabel : forall f im idxs,
+  injective f -> ells (relabel f im) (map f idxs) = ells im idxs.
+Proof. exact ells_relabel. Qed.
+Print Assumptions C13_ellipse_relabel.
